@@ -50,7 +50,7 @@ func workerMain(args []string) int {
 	share := fs.String("share", "", "phase 2: i/n — explore prefixes i, i+n, ... of -frontier-file")
 	queue := fs.String("queue", "", "shared queue directory (cooperating workers)")
 	workerID := fs.Int("worker-id", 0, "index of this worker in the shared queue")
-	chunk := fs.Int("chunk-paths", 300, "paths explored per claimed chunk before handing work back")
+	chunk := fs.Int("chunk-paths", 40, "paths explored per claimed chunk before handing work back")
 	cpuprof := fs.String("cpuprofile", "", "write a CPU profile")
 	var overlays, setups overlayList
 	fs.Var(&overlays, "overlay", "real-file=virtual-name-in-package (repeatable)")
